@@ -943,7 +943,7 @@ func (c *MapConverter) To(obj Object) (interface{}, error) {
 		if err != nil {
 			return nil, err
 		}
-		gMap.SetMapIndex(reflect.ValueOf(k), reflect.ValueOf(conv))
+		gMap.SetMapIndex(reflect.ValueOf(k), valueOrZero(conv, c.valueType))
 	}
 	return gMap.Interface(), nil
 }
@@ -960,6 +960,17 @@ func (c *MapConverter) From(obj interface{}) (Object, error) {
 		o[key.Interface().(string)] = conv
 	}
 	return NewMap(o), nil
+}
+
+// valueOrZero returns the reflect.Value of a converted element. Converters
+// return an untyped nil for the nil object (nil pointer, slice, map or
+// interface); reflect.ValueOf(nil) is the invalid Value, so use the zero value
+// of the element type instead.
+func valueOrZero(item interface{}, typ reflect.Type) reflect.Value {
+	if item == nil {
+		return reflect.Zero(typ)
+	}
+	return reflect.ValueOf(item)
 }
 
 func newMapConverter(valueType reflect.Type) (*MapConverter, error) {
@@ -1101,7 +1112,7 @@ func (c *SliceConverter) To(obj Object) (interface{}, error) {
 		if err != nil {
 			return nil, errz.TypeErrorf("type error: failed to convert slice element: %v", err)
 		}
-		slice = reflect.Append(slice, reflect.ValueOf(item))
+		slice = reflect.Append(slice, valueOrZero(item, c.valueType))
 	}
 	return slice.Interface(), nil
 }
@@ -1152,7 +1163,7 @@ func (c *ArrayConverter) To(obj Object) (interface{}, error) {
 		if err != nil {
 			return nil, errz.TypeErrorf("type error: failed to convert element: %v", err)
 		}
-		arrayElem.Index(i).Set(reflect.ValueOf(item))
+		arrayElem.Index(i).Set(valueOrZero(item, c.valueType))
 	}
 	return arrayElem.Interface(), nil
 }
